@@ -24,6 +24,9 @@ def main(c):
         "bytes reach the emulator through the library's own parser (ansi.Parser); a parse in which its 10 ms ESC timer fired is repeated",
         "state clauses are observed through the verif-tagged feed/snapshot hooks after every parsed sequence; the event-stall clause on the "
         "real StartWithSize goroutine with a real PTY child (bound 8 s per run, repeated once before it counts)",
+        "resizes concurrent with child output: the exported Resize called from the host goroutine while a real PTY child writes without "
+        "pause (the scheduler interleaves them); the stream counts as processed when a marker printed after the last resize reaches the "
+        "screen (bound 6 s, repeated once before it counts; run in a child process because the race can kill the process)",
         "Draw clause: host = real Vaxis on the fake console, output judged by the RefTerm reference terminal (C01); window sizes from 1x1",
         "a sequence that makes no progress for 15 s counts as blocking",
     ]
@@ -34,13 +37,18 @@ def main(c):
         c.model_check(specs, "MC_EmuEvents.tla", "MC_EmuEvents.cfg", workers=2)
         ok, _ = c.model_check(specs, "MC_EmuEvents.tla", "MC_EmuEvents_nodrain.cfg", workers=2, expect_violation=True)
         c.notes.append("EmuEvents without the drain step (the code before the fix): TLC %s a stall" % ("does not find" if ok else "finds"))
+        # a host's Resize interleaved with update() on the PTY goroutine: safe with the mutex, an out-of-range index without
+        c.model_check(specs, "MC_EmuEventsResize.tla", "MC_EmuEventsResize.cfg", workers=2)
+        ok, _ = c.model_check(specs, "MC_EmuEventsResize.tla", "MC_EmuEventsResize_nolock.cfg", workers=2, expect_violation=True)
+        c.notes.append("EmuEventsResize with Resize taking no lock (the code before the fix): TLC %s an out-of-range index"
+                       % ("does not find" if ok else "finds"))
     if not c.replay:
         emu_common.binding_selftest(c, drv, "c05", specs, SAFE[0], SAFE[1])
     if c.replay:
         import json
         d = json.load(open(c.replay))
         one = (d.get("multi") or [d])[0]
-        fams = ["draw" if one.get("draw") else "stall" if one.get("stall") else "state"]
+        fams = ["draw" if one.get("draw") else "stall" if (one.get("stall") or one.get("conc")) else "state"]
     else:
         fams = ["state", "draw", "stall"]
     for fam in fams:
@@ -60,4 +68,7 @@ def main(c):
              "the emulator's whole function x boundary-parameter x resize alphabet on every screen up to 3x3 from prepared start "
              "states; EmuSafe is evaluated after EVERY parsed sequence and resize; "
              "draw family: emulator history x host size x window geometry, sentinel outside the window checked after every Draw; "
-             "stall family: event kind x count x consumer on the real PTY goroutine; distinct = distinct scenario descriptor")
+             "stall family: event kind x count x consumer on the real PTY goroutine, and N host Resize calls over a cycle of sizes racing "
+             "with a child that writes without pause; state family also: resize histories on the alternate screen (saved cursor low "
+             "on the primary screen, several shrink/grow steps; all sequences of 2 and 3 resizes over the sizes up to 3x3); "
+             "distinct = distinct scenario descriptor")
